@@ -113,3 +113,35 @@ Proof.
     apply String.eqb_eq in Ho. apply String.eqb_eq in Hfi. apply String.eqb_eq in Hf.
     exists c. repeat split; assumption.
 Qed.
+
+(** * What a [ValidatedSame] disposition buys, semantically
+
+    [f] is the function both sides call (parseDuration, ParseSeverity, NewTemplatedRegexp, …: any partial function),
+    [is_empty] the `== ""` test.  The validator rejects the configuration unless [f a] succeeds — always, or only when
+    [a] is non-empty; the use site calls [f a] and DROPS the error — always, or only when [a] is non-empty (falling
+    back to a default otherwise).  If the validator is unconditional, or both are conditional (exactly what
+    [validator_covers] checks on the generated tables), the dropped error is never an error for an accepted value. *)
+Section SameFunction.
+  Variables (A B : Type) (f : A -> option B) (is_empty : A -> bool).
+
+  Definition validator_accepts (guarded : bool) (a : A) : bool :=
+    if guarded && is_empty a then true else match f a with Some _ => true | None => false end.
+
+  Definition use_result (guarded : bool) (a : A) (default : B) : option B :=
+    if guarded && is_empty a then Some default else f a.
+
+  Lemma same_function_never_drops gv gu a d :
+    (gv = true -> gu = true) -> validator_accepts gv a = true -> use_result gu a d <> None.
+  Proof.
+    unfold validator_accepts, use_result. intros Himp Hv.
+    destruct gu; cbn [andb].
+    - destruct (is_empty a); [discriminate|]. destruct gv; cbn [andb] in Hv; destruct (f a); discriminate.
+    - destruct gv; [specialize (Himp eq_refl); discriminate|]. cbn [andb] in Hv. destruct (f a); discriminate.
+  Qed.
+
+  (** and the shape the mechanical check REJECTS does drop errors: validated only when non-empty, used always, with
+      an [f] that fails on the empty value (parseDuration "", ParseSeverity "": the shape of 0b2762d) *)
+  Lemma guarded_validator_unguarded_use_drops a d :
+    is_empty a = true -> f a = None -> validator_accepts true a = true /\ use_result false a d = None.
+  Proof. unfold validator_accepts, use_result. intros He Hf. rewrite He. cbn [andb]. split; [reflexivity | exact Hf]. Qed.
+End SameFunction.
